@@ -479,15 +479,15 @@ def _check_tag_selection(shape, res, tname, tag, tagged):
                     f'{case}: yielded {got2!r} expected {exp2!r}', case)
       continue
     before_detached = canon.canon_cfg(detached) if isinstance(
-        detached, fdl.Buildable) else None
+        detached, fdl.Buildable) and not any(
+            detached is n for n in buildables(cfg)) else None
     sel.replace('R2')
     if any(v != 'R2' for v in list(sel)):   # (the replace may detach nodes)
       res.violation('C15/tag-replace/kept-selection-after-attaching',
                     f'{case}: {cfg!r}', case)
       continue
-    if before_detached is not None and not any(
-        detached is n for n in buildables(cfg)) and canon.canon_cfg(
-            detached) != before_detached:
+    if before_detached is not None and canon.canon_cfg(
+        detached) != before_detached:
       res.violation('C15/tag-replace/detached-node-overwritten',
                     f'{case}: {detached!r}', case)
 
